@@ -152,7 +152,7 @@ theorem inv_redefine {w : World} (h : Inv w) {c : Nat} {s : CState} (hs : w.chem
       have := h.bound e0 he0
       split <;> simpa using this
 
-theorem obs_redefine (w : World) {c : Nat} {s : CState} (hs : w.chems[c]? = some s)
+theorem obs_redefine (w : World) {c : Nat} {s : CState} (_hs : w.chems[c]? = some s)
     (chem' : Chem) (drop : Bool) :
     (w.redefine c { s with chem := chem' } drop).obs =
       { w.obs with chems := w.obs.chems.set c (chem', s.cas) } := by
